@@ -204,19 +204,22 @@ Proof.
 Qed.
 Print Assumptions C06_dial_target_is_checked_concrete.
 
-(* A permitted canonical literal is returned unchanged, for the concrete functions and any name system.
-   The one residue of G1 is explicit: the joined text is not itself accepted by ParseIP (observed on every case). *)
+(* A permitted canonical literal is returned unchanged, for the concrete functions and ANY name system:
+   no assumption about Go's net package is left (G1 for the joined text is parse_ip_c_joined). *)
 Theorem C06_permitted_literal_unchanged_concrete :
   forall names re_match pol a z port,
     valid_ip a = true -> wf_bytes a = true -> (addr_is_v4 a = true -> z = []) -> no_brackets z = true ->
     port_ok port = true -> blocked pol a = false ->
     dom_blocked re_match pol (ip_text ip_str_c a z) = false ->
     let s := join_host_port (ip_text ip_str_c a z) port in
-    parse_ip_c s = None ->
     fst (parse_or_resolve parse_ip_c (resolve_with names) ip_str_c re_match pol s) = Some s.
-Proof.
-  intros names re_match pol a z port.
-  exact (permitted_literal_unchanged_local parse_ip_c ip_str_c re_match ip_str_c_no_brackets ip_str_c_norm
-           (resolve_with names) pol a z port (literal_law_concrete names)).
-Qed.
+Proof. exact permitted_literal_unchanged_concrete. Qed.
 Print Assumptions C06_permitted_literal_unchanged_concrete.
+
+(* the joined text "a.b.c.d:port" / "[v6%zone]:port" is never itself an IP literal *)
+Theorem C06_joined_text_not_a_literal :
+  forall a z port,
+    valid_ip a = true -> wf_bytes a = true -> (addr_is_v4 a = true -> z = []) -> port_ok port = true ->
+    parse_ip_c (join_host_port (ip_text ip_str_c a z) port) = None.
+Proof. exact parse_ip_c_joined. Qed.
+Print Assumptions C06_joined_text_not_a_literal.
